@@ -47,6 +47,15 @@ CHECKS["C11"] = dict(
     note="trusted: renderer, time_printed projection, zone offsets read from config.json, TLC; 12:xx am/pm and zone names with another meaning are outside the property",
     ref="7 C11")
 
+CHECKS["C09"] = dict(
+    technique="TLA+ spec (Calendar.tla) model-checked by TLC; TLC-enumerated date lines replayed into the code in every spelling and language, today-dependent lines under pretended dates; random traces validated by TLC (Trace.tla)",
+    text="TLC model-checks on Calendar.tla the days <-> civil round trip, successor structure and the shift / difference algebra for every day of 1890..2110 (thorough: years 1..8999); "
+         "enumerates literals over boundary years x months x days, impossible dates, day keywords, year-less dates, shifts by 23 offsets in both directions and differences with expected "
+         "values; replayed in all spellings (d/m/y, 'd Month y', 'Month d, y', 'Month d y', 'd Month'; every configured month name) in en and tr, and under pretended dates through a clock "
+         "shim; uniformly random dates of years 1..9999 and counts are executed and validated by TLC. Two defects the suite pins are listed as known findings.",
+    note="trusted: renderer, date_printed projection, clock shim, TLC; month / year shifts only where the target day exists; literal sets are bounded",
+    ref="7 C09")
+
 NOT_YET = {
 }
 
